@@ -15,11 +15,11 @@ def run(chk):
         groups = [[1, 2, 3, 4, 5, 6, 7], [8, 9, 10, 11], [12, 13, 14, 15], [16, 17, 18], [19, 20, 21], [22, 23], [24, 25, 26], [30, 33], [42], [49]]
         for g in groups:
             seqs = 16 if max(g) <= 26 else 8
-            jobs.append(('k%d' % g[0], ['codec-block', '--blocks', ';'.join('%d:%d' % (k, 1 + (k % 2)) for k in g), '--seqs', seqs]))
+            jobs.append(('k%d' % g[0], ['codec-block', '--blocks', ';'.join('%d:%d' % (k, 1 + (k % 2)) for k in g), '--seqs', seqs, '--dups', 9]))
         rankmax = 60
     else:
         for k in range(1, 61):
-            jobs.append(('k%d' % k, ['codec-block', '--blocks', '%d:1;%d:3' % (k, k), '--seqs', 40 if k <= 26 else 24]))
+            jobs.append(('k%d' % k, ['codec-block', '--blocks', '%d:1;%d:3' % (k, k), '--seqs', 40 if k <= 26 else 24, '--dups', 18]))
         for k in (69, 75, 84, 91, 101):
             jobs.append(('k%d' % k, ['codec-block', '--blocks', '%d:1' % k, '--seqs', 12]))
         rankmax = 110
@@ -72,7 +72,7 @@ def run(chk):
     chk.cov['rule'] = ('per K: sequences of SourceBlockDecoder::decode calls: (a) nsrc source symbols + repair up to exactly K '
                        'then one at a time to K+3; (b) K-1 source + repair; (c) one batch of K\'+H..+3 symbols with a source '
                        'symbol missing (GF(2)-only attempt and its fall-back); (d) K repair symbols at once, then singles, then '
-                       'all source symbols; for ~40 (thorough ~190) block sizes up to 3000 (12000) - beyond the rank oracle - one received set of K..K+3 symbols decoded '
+                       'all source symbols; (e) batches with duplicates inside - [new, duplicate] and [duplicate, new] in one call on a decoder that has not solved yet, and after a solve that failed on a set found by search; for ~40 (thorough ~190) block sizes up to 3000 (12000) - beyond the rank oracle - one received set of K..K+3 symbols decoded '
                        'on both back-ends and in two batchings must give one outcome and the original bytes; repair ESIs from a window after K, scattered 24-bit ESIs and 2^24-1; alternating '
                        'sparse/dense back-end. Every call\'s Some/None and bytes validated by TLC (exact rank, K\' <= %d). '
                        'distinct_nontrivial = sequences accepted; legitimate failures (None at >= K symbols, certified rank '
